@@ -31,6 +31,20 @@ for n in (1, 2, 3):
                     bound="operand length <= 3 words, every shift 0..(n+3)*B_PER_W", unwind=n + 3, spec_unwind=n + 4, search=20000, split=True,
                     fn=["wwShLo", "wwShHi", "wwShLoCarry", "wwShHiCarry", "wwTrimLo", "wwTrimHi"]))
 
+MEM = ["src/core/mem.c", "src/core/word.c", "src/core/u64.c", "src/core/u32.c", "src/core/u16.c"]
+MEMFN = ["memCopy", "memMove", "memSet", "memNeg", "memEq", "memEq_fast", "memCmp", "memCmp_fast", "memCmpRev", "memCmpRev_fast",
+         "memIsZero", "memIsZero_fast", "memNonZeroSize", "memIsRep", "memIsRep_fast", "memXor", "memXor2", "memSwap", "memRev"]
+for cnt in (0, 1, 7, 8, 9, 16, 19):
+    GROUPS.append(G("mem.cnt%d" % cnt, "harness/C05/mem.c", "h_mem", MEM, defs=["CNT=%d" % cnt], level="B",
+                    bound="buffer length in {0,1,7,8,9,16,19} octets (both sides of the word/octet loop split)",
+                    unwind=cnt + 3, spec_unwind=cnt + 3, search=20000, split=True, fn=MEMFN))
+for c1, c2 in ((1, 1), (2, 1), (1, 2), (3, 2), (2, 3), (3, 3)):
+    GROUPS.append(G("mem_join.%d.%d" % (c1, c2), "harness/C05/mem.c", "h_mem_join", MEM, defs=["C1=%d" % c1, "C2=%d" % c2],
+                    level="B", bound="memJoin: count1, count2 <= 3, every placement of dest/src1/src2 in one arena",
+                    unwind=c1 + c2 + 3, spec_unwind=3 * (c1 + c2) + 4, search=50000, fn=["memJoin", "memMove"], timeout=600))
+GROUPS.append(G("mem_move.5", "harness/C05/mem.c", "h_mem_move", MEM, defs=["C1=5", "C2=0"], level="B",
+                bound="memMove: count 5, every placement in one arena", unwind=8, spec_unwind=20, search=50000, fn=["memMove"]))
+
 # ---- unbounded contract groups (dfcc + loop contracts), symbolic n ---------------------
 def L(assigns, inv, dec="n - i"):
     return dict(assigns=assigns, inv=inv, dec=dec)
